@@ -417,8 +417,10 @@ def run_any_opcode(ctx, env, rng):
         for status in [0, 2] + sorted(NAMED) + [0x10, 0x22, 0xFF]:
             for raw in (False, True):
                 try:
-                    cmd = SCSICommand(OpCode("HAND_BUILT_%02X" % v, v, {}), 0, 16 if v & 1 else 0)
-                    cmd.cdb = cmd.build_cdb(opcode=v)
+                    oc = OpCode("HAND_BUILT_%02X" % v, v, {})
+                    cmd = SCSICommand(oc, 0, 16 if v & 1 else 0)
+                    cmd.cdb = SCSICommand.init_cdb(oc)
+                    cmd.cdb[0] = v
                 except Exception:  # noqa: BLE001
                     continue
                 sense = env.unique_sense(rng) if status == 2 else None
@@ -438,7 +440,8 @@ def run_sense_table(shard, ctx, env, rng):
     from vmon.spec import sense as ref
 
     t = env.transport
-    pairs = sorted(set(ref.ASC) | {(k >> 8, k & 0xFF) for k in mod.sense_ascq_dict})
+    pairs = sorted(set(ref.ASC) | {(k >> 8, k & 0xFF) for k in mod.sense_ascq_dict} | {(0x00, 0x1D), (0x5D, 0x10), (0x0B, 0x01), (0x3F, 0x0E), (0x80, 0x00), (0xFF, 0xFF)}
+                   | {(rng.getrandbits(8), rng.getrandbits(8)) for _ in range(200)})
     for asc, ascq in pairs:
         for key in shard["keys"]:
             for rc in (0x70, 0x72):
